@@ -58,6 +58,10 @@ CHECKS = {
    "exhaustive enumeration of failing-statement positions x transaction modes x per-file directives x apply counts on the real CLI and a real SQLite file, judged by a reference model of each mode and by differential full dumps",
    "`migrate apply`: 5 (thorough 12) directory shapes x a really failing statement at every position x tx-mode file/all/none x txmode directives on the failing or preceding file x apply count: the journal rows written by the statements and the revision rows, read by our own connection, must equal what the mode promises; after repairing the file the full dump must equal that of a run that never failed. `--dry-run` of migrate apply from 5 reached states x modes x counts x baseline/allow-dirty and of schema apply must leave dump and directory byte-identical. `schema apply` plans failing midway on populated data must leave the database unchanged in the default and file modes.",
    "SQLite file engine only; statement failure = a statement the engine really rejects."),
+ "C14": ("fault_enumeration",
+   "exhaustive enumeration of dev-database commands x dev states x failing-statement positions on the real CLI with a SQLite file as dev database; dev dump and directory bytes compared before/after",
+   "Commands migrate diff / validate / lint --latest N and schema apply|diff|inspect with SQL (and HCL) sources x dev state {empty, table with rows, view only, thorough: table+trigger} x directory / schema-file shapes with a really failing statement at every position (and none): a non-empty dev database must be refused and left byte-identical; an empty one must be handed back with no tables, indexes, views or triggers whether the command succeeded or failed; the migration directory must not be written by a replay (migrate diff may add one file and refresh the sum on success).",
+   "SQLite file as dev database; commands that do not use the dev database for a given source (HCL on SQLite) are only required to leave it untouched."),
  "C15": ("exploration",
    "bounded-exhaustive enumeration over the exported type registries x parameter grid and over the differ universe states, each pushed through MarshalHCL/EvalHCL of the real codecs and compared by differ, formatted types, own structural comparison and byte fixpoint",
    "For the MySQL, PostgreSQL and SQLite codecs: every registered type spec x parameter grid (size, precision/scale, time precision, unsigned, enum/set values, PostgreSQL arrays) must be a FormatType/ParseType fixpoint and survive MarshalHCL -> EvalHCLBytes as a column type with empty diff both ways and identical bytes on re-marshal; every state of the differ universe (base, +1 edit or equivalence; thorough +2 edits) must round-trip with empty diff both ways, equal element lists / attribute sets / formatted types by our own comparison, and byte-identical re-marshal.",
